@@ -66,6 +66,18 @@ fn gen(rng: &mut Rng, cluster: bool) -> Program {
             _ => Op::Resolve { take_new: rng.chance(2, 3), newest: rng.chance(1, 3) },
         });
     }
+    // one write (at most) carries the value the keys start with: while the key still holds it -- in
+    // particular while an earlier conflict on the key is pending -- that write must queue like any other
+    if rng.chance(1, 3) {
+        let writes: Vec<usize> = ops.iter().enumerate().filter(|(_, o)| matches!(o, Op::Set { .. } | Op::SetV { .. })).map(|(i, _)| i).take(4).collect();
+        if !writes.is_empty() {
+            let i = writes[rng.below(writes.len() as u64) as usize];
+            match &mut ops[i] {
+                Op::Set { val, .. } | Op::SetV { val, .. } => *val = "base1".to_string(),
+                _ => {}
+            }
+        }
+    }
     // finish: an arbiter is present and answers everything
     ops.push(Op::ArbiterConnect);
     for _ in 0..8 {
